@@ -475,6 +475,21 @@ def check_j_scale(ctx):
             if len(others) == 1 and valvar in (v.left.id, v.right.id) and isinstance(dc.key, ast.Name) and dc.key.id == getattr(tgt.elts[0], "id", "?"):
                 jname = others.pop()
                 ok = iter_ok
+    if jname is None and len(sa) == 1 and isinstance(sa[0].value, ast.Name):
+        # self.current_func = <nested def>: the scale is the free name multiplied with the value variable of a loop over f(t).items()
+        defs = [d for d in ast.walk(fn) if isinstance(d, ast.FunctionDef) and d.name == sa[0].value.id and d is not fn]
+        if len(defs) == 1:
+            d = defs[0]
+            det = norm(d)[:200]
+            for lp in ast.walk(d):
+                if isinstance(lp, ast.For) and isinstance(lp.target, ast.Tuple) and len(lp.target.elts) == 2 \
+                        and isinstance(lp.iter, ast.Call) and isinstance(lp.iter.func, ast.Attribute) and lp.iter.func.attr == "items":
+                    valvar = getattr(lp.target.elts[1], "id", None)
+                    for b in ast.walk(lp):
+                        if isinstance(b, ast.BinOp) and isinstance(b.op, ast.Mult) and isinstance(b.left, ast.Name) and isinstance(b.right, ast.Name) \
+                                and valvar in (b.left.id, b.right.id):
+                            jname = ({b.left.id, b.right.id} - {valvar}).pop() if b.left.id != b.right.id else None
+                            ok = jname is not None
     if jname is None:
         raise AnalysisError("self.current_func is no longer `lambda t: {key: <scale> * value for key, value in f(t).items()}`: "
                             "cannot identify the current scale")
